@@ -13,6 +13,45 @@ from .guards import class_functions, locks_of, top_function, lambda_site, lambda
 VERIF = os.path.dirname(os.path.dirname(os.path.abspath(__file__)))
 
 
+def runs_only_when_not_unwinding(f, st):
+    """statement st (in an inlined destructor) is reached only through the 'no new exception in flight' edge of a test
+    `std::uncaught_exceptions() > saved` (any comparison spelling): it does not run when the scope is left by a throw"""
+    pos = f.pos_of(st)
+    if pos is None:
+        return False
+    for b in f.blocks.values():
+        t = b.term
+        if not t or not t.get("cond") or len(b.succs) != 2 or b.succs[0] is None or b.succs[1] is None:
+            continue
+        c = unwrap(f, f.s(t["cond"]))
+        neg = False
+        while c is not None and c["k"] == "UnaryOperator" and c.get("op") == "!":
+            neg = not neg
+            c = unwrap(f, f.children(c)[0])
+        if c is None or c["k"] != "BinaryOperator" or c.get("op") not in (">", "<", "!=", "==", ">=", "<="):
+            continue
+        l, r = [unwrap(f, x) for x in f.children(c)]
+        is_ue = lambda x: x is not None and x["k"] == "CallExpr" and callee_fq(x) in ("std::uncaught_exceptions",)
+        if is_ue(l) and not is_ue(r):
+            unwinding_when_true = {">": True, "!=": True, "==": False, "<=": False}.get(c["op"])
+        elif is_ue(r) and not is_ue(l):
+            unwinding_when_true = {"<": True, "!=": True, "==": False, ">=": False}.get(c["op"])
+        else:
+            continue
+        if unwinding_when_true is None:
+            continue
+        if neg:
+            unwinding_when_true = not unwinding_when_true
+        unw = b.succs[0] if unwinding_when_true else b.succs[1]
+        if not f.dominates_block(b.id, pos[0]) or b.id == pos[0]:
+            continue
+        if unw == pos[0]:
+            continue
+        if not f.reach_avoiding((unw, -1), pos, []):
+            return True
+    return False
+
+
 def scope_guards_alive(f, st):
     """local objects of helper classes introduced after the reference tree whose (inlined) destructor body is
     non-empty and whose scope encloses statement st.  Their destructors also run when st throws - code the CFG (which has
@@ -660,9 +699,9 @@ def acquisition_summaries(ctx, rid, classes, opt_classes=()):
             en = [a for a in s if not (a.get("cond") and a["cond"][0] == "this.enabled" and a["cond"][1] is False)]
             dis = [a for a in s if a.get("cond") and a["cond"][0] == "this.enabled" and a["cond"][1] is False]
             if cls in opt_classes:
-                ok = bool(dis) and all(a["data"] == "&this.m_obj" and a["mutex"] is None and a["st"] == UNOWNED
+                ok = bool(dis) and all(a["data"] == "&this.m_obj" and a["st"] == UNOWNED
                                        and not a["blocking"] for a in dis)
-                ctx.ob(rid, ok, site, "%s with locking disabled returns a usable handle with a non-owning lock and no mutex"
+                ctx.ob(rid, ok, site, "%s with locking disabled returns a usable handle whose lock owns nothing (a default-constructed or deferred lock)"
                        % f.name, "" if ok else "disabled alternatives: %s" % _alts(dis), fn=f.label, inst=f.qname)
                 ok = all(a.get("cond") and a["cond"] == ("this.enabled", True) for a in en) and bool(en)
                 ctx.ob(rid, ok, site, "%s locks exactly when 'enabled' is true" % f.name,
